@@ -6,7 +6,7 @@ evaluate(...)  compare all admissible sets x algorithms of one family.
 """
 import math, os, sys
 sys.path.insert(0, os.path.dirname(os.path.abspath(__file__)))
-import gnet, n08_ref, n08_gen, n08_run
+import gnet, n08_ref, n08_gen, n08_run, n08_dangle
 from gnet import Obs
 from fractions import Fraction as Fr
 
@@ -19,6 +19,7 @@ TOL_SD = 1e-6         # mm / cc (standard deviations of adjusted observations), 
 TOL_PVV = 3e-7        # relative ([pvv] is printed with 8 significant digits)
 TOL_3DEC = 2.1e-3     # qrr, f, std-residual are printed with 3 decimals (two units of the last digit)
 TOL_ORTH = 1e-8       # m, |n_S . dx_S| with n_S scaled to max-abs 1
+TOL_SAME = 1e-8       # m, same network + same datum (dangling point removed) -> same coordinates
 
 _cache = {}
 
@@ -173,6 +174,7 @@ def reduce_result(D, net, M, S, inv):
     for o in inv:
         iv.append(gnet.ref_value(o, C))
     R["inv"] = iv
+    R["xyz"] = [v for p in net.points for v in C[p.id] if v is not None]
     # marks printed by gama: constrained flags must be the ones asked for
     flags = []
     for p in net.points:
@@ -205,29 +207,116 @@ def reduce_result(D, net, M, S, inv):
     return R
 
 
+def _vtuple(var):
+    return None if var is None else tuple(var)
+
+
+def build_net(tier, fi, mask, var=None):
+    """-> (family network with the constraint set applied, network written to
+    the input = the same + the dangling point of the variant)"""
+    f, M, slots, inv = _family(tier, fi)
+    base = n08_gen.apply_constraints(f.net, slots, mask)
+    net = base
+    if var is not None:
+        net, pid = n08_dangle.apply(base, _vtuple(var))
+    gnet.fill_values(net)
+    return base, net
+
+
 def worker(item):
-    tier, fi, mask, wd, exe = item
+    tier, fi, mask, wd, exe = item[:5]
+    var = _vtuple(item[5]) if len(item) > 5 else None
     f, M, slots, inv = _family(tier, fi)
     S, rk = classify_mask(M, f.net, slots, mask)
     adm = (M.d > 0 and rk == M.d)
-    out = {"fi": fi, "mask": mask, "adm": adm, "rank": rk, "nS": len(S)}
+    out = {"fi": fi, "mask": mask, "var": var, "adm": adm, "rank": rk, "nS": len(S)}
     if not adm:
         return out
     out["strength"] = datum_strength(M, S)
-    net = n08_gen.apply_constraints(f.net, slots, mask)
-    gnet.fill_values(net)
+    base, net = build_net(tier, fi, mask, var)
     gkf = gnet.to_gkf(net)
-    key, res = n08_run.run_case(("%s_%d_%x" % (tier[0], fi, mask), gkf, wd, exe, ARGS))
-    out["res"] = {alg: reduce_result(res[alg], net, M, S, inv) for alg in ALGS}
+    name = "%s_%d_%x" % (tier[0], fi, mask) + ("" if var is None else "_" + "_".join(str(v) for v in var))
+    key, res = n08_run.run_case((name, gkf, wd, exe, ARGS))
+    # the dangling point must be removed: everything is reduced against the family network
+    out["res"] = {alg: reduce_result(res[alg], base, M, S, inv) for alg in ALGS}
     out["expect"] = (M.d, M.m - M.n + M.d, M.n, M.m)
+    if var is not None:
+        pid = n08_dangle.PID[var[3]]
+        out["exp_removed"] = [list(t) for t in n08_dangle.expected_removed(var)]
+        for alg in ALGS:
+            D = res[alg]
+            if D["cls"] == "adj":
+                out["res"][alg]["p_in_output"] = [k for k in ("adjusted", "fixed") if pid in D.get(k, {})]
     return out
 
 
-def gkf_of(tier, fi, mask):
-    f, M, slots, inv = _family(tier, fi)
-    net = n08_gen.apply_constraints(f.net, slots, mask)
-    gnet.fill_values(net)
+def gkf_of(tier, fi, mask, var=None):
+    base, net = build_net(tier, fi, mask, var)
     return gnet.to_gkf(net)
+
+
+def case_name(slots, mask, var=None):
+    return n08_gen.mask_name(slots, mask) + ("" if var is None else " + " + n08_dangle.label(var))
+
+
+def admissible_masks(tier, fi):
+    f, M, slots, inv = _family(tier, fi)
+    if M.d == 0:
+        return []
+    return [m for m in range(1 << len(slots)) if classify_mask(M, f.net, slots, m)[1] == M.d]
+
+
+def _spaced(lst, cap):
+    """cap elements of lst, evenly spaced, first and last included"""
+    if cap is None or len(lst) <= cap:
+        return list(lst)
+    if cap == 1:
+        return [lst[0]]
+    return [lst[(i * (len(lst) - 1)) // (cap - 1)] for i in range(cap)]
+
+
+def dangle_plan(tier, fi):
+    """the (constraint set, dangling variant) pairs of one family.
+
+    Constraint sets: MINIMAL admissible sets (no constrained group can be
+    dropped: every stale or surplus index in the regularisation list changes
+    the datum), evenly spaced in mask order with the first and the last one
+    included, and the full set (every group constrained: duplicates in the
+    list).  Bounds per tier:
+      thorough, complete networks (no observation dropped, no point fixed)
+          with sign pattern 0: 8 minimal sets + full set, all statuses of P
+          (xyz: xy and z separately), 3 id positions
+      thorough, other networks (they differ from the former by the noise, one
+          observation or one fixed point): 2 minimal sets + full set, P either
+          entirely free or entirely constrained, id position 'between'
+      quick: 3 minimal sets + full set, P entirely free / entirely
+          constrained, 3 id positions
+    always: every attachment of the family x 3 observation positions; each
+    variant is proved to be dangling (n08_dangle.selfcheck)."""
+    f, M, slots, inv = _family(tier, fi)
+    adm = admissible_masks(tier, fi)
+    if not adm:
+        return []
+    A = set(adm); k = len(slots)
+    minimal = [m for m in adm if not any(((m >> i) & 1) and (m ^ (1 << i)) in A for i in range(k))]
+    full = (1 << k) - 1
+    complete = tier == "thorough" and ".dNone" in f.name and ".fix" not in f.name and ".p0." in f.name
+    masks = _spaced(minimal, (8 if complete else 2) if tier == 'thorough' else 3)
+    if full in A and full not in masks:
+        masks.append(full)
+    V = n08_dangle.variants(f.name, tier)
+    if not complete:
+        V = [v for v in V if not (v[1] and v[2] and v[1] != v[2])]
+        if tier == "thorough":
+            V = [v for v in V if v[3] == "between"]
+    for v in V:
+        n08_dangle.selfcheck(f.net, v)
+    return [(m, v) for m in masks for v in V]
+
+
+def plan_worker(item):
+    tier, fi = item
+    return fi, dangle_plan(tier, fi)
 
 
 def famkind(name):
@@ -248,61 +337,109 @@ def _deviants(vals, tol):
     return [t for t, v in vals if abs(v - med) > tol]
 
 
+def _same_solution(ra, rb):
+    """largest difference of any coordinate of the family points; None = not comparable"""
+    if ra.get("xyz") is None or rb.get("xyz") is None or len(ra["xyz"]) != len(rb["xyz"]):
+        return None
+    return max((abs(x - y) for x, y in zip(ra["xyz"], rb["xyz"])), default=0.0)
+
+
 def evaluate(tier, fi, results, report, outcome):
     """results: list of worker outputs of one family (admissible ones carry
-    'res').  report(sig, detail, masks, algs) is called per violation."""
+    'res'; outputs with 'var' are dangling-point variants of a constraint set).
+    report(sig, detail, cases, algs) is called per violation, cases = list of
+    (mask, var)."""
     f, M, slots, inv = _family(tier, fi)
     kind = famkind(f.name)
-    runs = []      # ((mask, alg), record)
+    runs = []      # ((mask, alg, var), record)
+    byrun = {}     # (mask, alg, var) -> record of every run that gave an adjustment
     for w in results:
         if not w["adm"]:
             continue
+        var = _vtuple(w.get("var"))
+        cn = case_name(slots, w["mask"], var)
+        cs = [(w["mask"], var)]
+        exp_removed = [tuple(t) for t in w.get("exp_removed", [])]
         for alg in ALGS:
             r = w["res"][alg]
-            tag = (w["mask"], alg)
+            tag = (w["mask"], alg, var)
             if r["nonfinite"]:
-                report("C08|non-finite|%s|%s" % (kind, alg), "%s %s: %s" % (f.name, n08_gen.mask_name(slots, w["mask"]), r["nonfinite"][:2]), [w["mask"]], [alg])
+                report("C08|non-finite|%s|%s" % (kind, alg), "%s %s: %s" % (f.name, cn, r["nonfinite"][:2]), cs, [alg])
             if r["cls"] != "adj":
-                outcome("%s|refused:%s" % (kind, r["cls"]))
-                report("C08|admissible-set-refused|%s|%s" % (kind, alg),
+                outcome("%s|refused:%s" % (kind, "timeout" if r["rc"] == -999 else r["cls"]))
+                report("C08|%s|%s|%s" % ("timeout" if r["rc"] == -999 else "admissible-set-refused", kind, alg),
                        "%s constraints %s (exact rank of N_S = defect %d): gama gives %s rc=%s %s removed=%s diag=%s" % (
-                           f.name, n08_gen.mask_name(slots, w["mask"]), M.d, r["cls"], r["rc"], r.get("err"), r.get("removed"), r.get("diag")),
-                       [w["mask"]], [alg])
+                           f.name, cn, M.d, r["cls"], r["rc"], r.get("err"), r.get("removed"), r.get("diag")),
+                       cs, [alg])
                 continue
-            if r.get("removed"):
-                report("C08|points-removed|%s|%s" % (kind, alg), "%s %s removed %s" % (f.name, n08_gen.mask_name(slots, w["mask"]), r["removed"]), [w["mask"]], [alg])
-                continue
+            got_removed = [tuple(t) for t in (r.get("removed") or [])]
+            if var is None:
+                if got_removed:
+                    report("C08|points-removed|%s|%s" % (kind, alg), "%s %s removed %s" % (f.name, cn, r["removed"]), cs, [alg])
+                    continue
+            else:
+                if got_removed != exp_removed or r.get("p_in_output"):
+                    report("C08|dangling-point-removal|%s|%s|%s" % (kind, var[0], alg),
+                           "%s %s: removed points %s, expected %s (decided by singular_coords() on the design matrix, the same for every algorithm); dangling point printed in %s" % (
+                               f.name, cn, got_removed, exp_removed, r.get("p_in_output") or "no section"), cs, [alg])
+                    continue
+                outcome("%s|dangling:%s:%s|removed:%s" % (kind, var[0], "constrained" if n08_dangle.is_constrained(var) else "free",
+                                                          "+".join(t[1] for t in got_removed)))
             if r.get("missing"):
-                report("C08|point-missing-in-output|%s|%s" % (kind, alg), "%s %s: %s" % (f.name, n08_gen.mask_name(slots, w["mask"]), r["missing"]), [w["mask"]], [alg])
+                report("C08|point-missing-in-output|%s|%s" % (kind, alg), "%s %s: %s" % (f.name, cn, r["missing"]), cs, [alg])
                 continue
             if tuple(r["scal"]) != tuple(w["expect"]):
                 report("C08|defect-dof-counts|%s|%s" % (kind, alg),
-                       "%s %s: (defect,dof,unknowns,equations)=%s, exact reference %s" % (f.name, n08_gen.mask_name(slots, w["mask"]), r["scal"], w["expect"]),
-                       [w["mask"]], [alg])
+                       "%s %s: (defect,dof,unknowns,equations)=%s, exact reference %s" % (f.name, cn, r["scal"], w["expect"]),
+                       cs, [alg])
             # constraint marks echoed
             want = {}
             for i, (pid, wh) in enumerate(slots):
                 want[(pid, wh)] = bool((w["mask"] >> i) & 1)
             for (pid, cx, cz) in r["flags"]:
                 if (pid, "xy") in want and want[(pid, "xy")] != cx or (pid, "z") in want and want[(pid, "z")] != cz:
-                    report("C08|constraint-marks|%s|%s" % (kind, alg), "%s %s point %s printed XY=%s Z=%s" % (f.name, n08_gen.mask_name(slots, w["mask"]), pid, cx, cz), [w["mask"]], [alg])
+                    report("C08|constraint-marks|%s|%s" % (kind, alg), "%s %s point %s printed XY=%s Z=%s" % (f.name, cn, pid, cx, cz), cs, [alg])
                     break
             if r["orth"] > TOL_ORTH:
                 report("C08|not-minimal-over-constrained|%s|%s" % (kind, alg),
                        "%s %s: corrections of the constrained coordinates have a component %.3e m along a datum generator restricted to them (|dx_S|=%.3e m)" % (
-                           f.name, n08_gen.mask_name(slots, w["mask"]), r["orth"], r["dxnorm"]), [w["mask"]], [alg])
+                           f.name, cn, r["orth"], r["dxnorm"]), cs, [alg])
             if r["maxcorr"] > 0.004:
-                report("C08|harness|correction-too-large|%s" % kind, "%s %s max correction %.4f m (generator must keep the linearisation error negligible)" % (f.name, n08_gen.mask_name(slots, w["mask"]), r["maxcorr"]), [w["mask"]], [alg])
+                report("C08|harness|correction-too-large|%s" % kind, "%s %s max correction %.4f m (generator must keep the linearisation error negligible)" % (f.name, cn, r["maxcorr"]), cs, [alg])
             runs.append((tag, r))
+            byrun[tag] = r
+
+    # dangling point: the same constraint set with / without the point, and with the point
+    # constrained / free, are the same network with the same datum -> the same coordinates
+    for (mask, alg, var), r in runs:
+        if var is None:
+            continue
+        partners = [("without the dangling point", (mask, alg, None), "dangling-point-changes-result")]
+        if n08_dangle.is_constrained(var):
+            partners.append(("with the dangling point declared free", (mask, alg, n08_dangle.free_twin(var)), "dangling-status-changes-result"))
+        for what, ptag, clause in partners:
+            rb = byrun.get(ptag)
+            if rb is None:
+                continue
+            d = _same_solution(r, rb)
+            if d is None or d > TOL_SAME or abs(r["pvv"] - rb["pvv"]) > TOL_PVV * abs(rb["pvv"]) + 1e-9:
+                report("C08|%s|%s|%s|%s" % (clause, kind, var[0], alg),
+                       "%s %s: adjusted coordinates differ by %s m (tolerance %.0e), [pvv] %.8g / %.8g from the run %s (%s); the point is removed in both, the datum is the same" % (
+                           f.name, case_name(slots, mask, var), "%.3e" % d if d is not None else "?", TOL_SAME, r["pvv"], rb["pvv"], what, case_name(slots, ptag[0], ptag[2])),
+                       [(mask, var), (ptag[0], ptag[2])], [alg])
+
     if len(runs) < 2:
         return len(runs)
-    outcome("%s|d=%d|adm-sets=%d|dof=%d|pvv=%s" % (kind, M.d, len(runs) // 4, runs[0][1]["scal"][1], "0" if runs[0][1]["pvv"] < 1e-6 else ">0"))
+    nbase = sum(1 for t, _ in runs if t[2] is None)
+    outcome("%s|d=%d|adm-sets=%d|dof=%d|pvv=%s" % (kind, M.d, nbase // 4, runs[0][1]["scal"][1], "0" if runs[0][1]["pvv"] < 1e-6 else ">0"))
 
     def cmp_vector(name, getter, tolf, clause, circ=None):
         n = len(getter(runs[0][1]))
         for t, r in runs:
             if len(getter(r)) != n:
-                report("C08|%s|%s|%s" % (clause, kind, t[1]), "%s: %s has %d entries, others %d" % (f.name, name, len(getter(r)), n), [runs[0][0][0], t[0]], [runs[0][0][1], t[1]])
+                report("C08|%s|%s|%s" % (clause, kind, t[1]), "%s: %s has %d entries in %s/%s, %d in %s/%s" % (
+                    f.name, name, len(getter(r)), case_name(slots, t[0], t[2]), t[1], n, case_name(slots, runs[0][0][0], runs[0][0][2]), runs[0][0][1]),
+                    [(runs[0][0][0], runs[0][0][2]), (t[0], t[2])], [runs[0][0][1], t[1]])
                 return
         worst = None
         for i in range(n):
@@ -322,8 +459,8 @@ def evaluate(tier, fi, results, report, outcome):
             algs = sorted({t[1] for t in dev}) or sorted({tlo[1], thi[1]})
             report("C08|%s|%s|%s" % (clause, kind, "+".join(algs)),
                    "%s: %s[%d] differs by %.3e (tolerance %.1e) between constraints %s/%s and %s/%s; %d of %d runs deviate from the median" % (
-                       f.name, name, i, sp, tol, n08_gen.mask_name(slots, tlo[0]), tlo[1], n08_gen.mask_name(slots, thi[0]), thi[1], len(dev), len(runs)),
-                   [tlo[0], thi[0]], [tlo[1], thi[1]])
+                       f.name, name, i, sp, tol, case_name(slots, tlo[0], tlo[2]), tlo[1], case_name(slots, thi[0], thi[2]), thi[1], len(dev), len(runs)),
+                   [(tlo[0], tlo[2]), (thi[0], thi[2])], [tlo[1], thi[1]])
 
     kinds = runs[0][1]["kinds"]
     cmp_vector("residual", lambda r: r["res"], lambda i, v: TOL_ANG if kinds[i] == "a" else TOL_LEN, "residuals")
@@ -347,20 +484,31 @@ def eval_family(item):
     f, M, slots, inv = _family(tier, fi)
     viol = []; outs = []
 
-    def report(sig, detail, masks, algs):
-        ms = sorted(set(masks))
-        files = {"mask_%x.gkf" % m: gkf_of(tier, fi, m) for m in ms} if len(viol) < 6 else None
-        viol.append((sig, detail, {"tier": tier, "fi": fi, "family": f.name, "masks": ms, "algs": list(algs)}, files))
+    def report(sig, detail, cases, algs):
+        cs = sorted(set((m, _vtuple(v)) for m, v in cases), key=lambda t: (t[0], t[1] or ()))
+        ms = sorted(set(m for m, v in cs))
+        files = None
+        if len(viol) < 6:
+            files = {"mask_%x.gkf" % m: gkf_of(tier, fi, m) for m in ms}
+            for m, v in cs:
+                if v is not None:
+                    files["mask_%x_%s.gkf" % (m, "_".join(str(t) for t in v))] = gkf_of(tier, fi, m, v)
+        viol.append((sig, detail, {"tier": tier, "fi": fi, "family": f.name, "masks": ms, "algs": list(algs),
+                                   "vars": [[m, list(v)] for m, v in cs if v is not None]}, files))
 
     nr = evaluate(tier, fi, results, report, outs.append)
     k = len(slots)
-    adm = sorted(w["mask"] for w in results if w["adm"])
+    adm = sorted(w["mask"] for w in results if w["adm"] and w.get("var") is None)
     admset = set(adm)
     edges = sum(1 for m in adm for i in range(k) if (m ^ (1 << i)) in admset and m < (m ^ (1 << i)))
     sample = None
     if adm:
         sample = "%s: defect %d, %d of %d constraint sets admissible, e.g. {%s}; invariants compared: %s" % (
             f.name, M.d, len(adm), 1 << k, mask_name(slots, adm[len(adm) // 2]), ", ".join(invariant_names(tier, fi)[:6]))
+        nv = [w for w in results if w.get("var") is not None]
+        if nv:
+            w = nv[len(nv) // 2]
+            sample += "; %d dangling-point variants, e.g. {%s}" % (len(nv), case_name(slots, w["mask"], w["var"]))
     return {"fi": fi, "viol": viol, "outcomes": outs, "nruns": nr, "edges": edges, "sample": sample}
 
 
